@@ -172,6 +172,20 @@ fn eval_inner(name: &str, cp: u32) -> Option<String> {
                 Err(precis_core::context::ContextRuleError::Undefined) => "err:Undefined".to_string(),
             }
         }
+        "kat_with" | "arab_with" | "extarab_with" => {
+            // the whole-label rules with c as the ONLY other character of the label
+            let c = ch?;
+            let (s, r): (String, precis_core::context::ContextRule) = match name {
+                "kat_with" => (['\u{30fb}', c].iter().collect(), precis_core::context::rule_katakana_middle_dot),
+                "arab_with" => (['\u{660}', c].iter().collect(), precis_core::context::rule_arabic_indic_digits),
+                _ => (['\u{6f0}', c].iter().collect(), precis_core::context::rule_extended_arabic_indic_digits),
+            };
+            match r(&s, 0) {
+                Ok(v) => format!("ok:{}", v),
+                Err(precis_core::context::ContextRuleError::NotApplicable) => "err:NotApplicable".to_string(),
+                Err(precis_core::context::ContextRuleError::Undefined) => "err:Undefined".to_string(),
+            }
+        }
         "zs" => b(prof_hooks::is_space_separator(ch?)),
         "nonascii_zs" => b(prof_hooks::is_non_ascii_space(ch?)),
         "std_upper" => b(ch?.is_uppercase()),
